@@ -397,6 +397,16 @@ func (c *Chain) Parked() int {
 	return c.parked
 }
 
+// ReleaseMethod lets the suspended (and all later) calls of one method go on.
+func (c *Chain) ReleaseMethod(method string) {
+	c.mu.Lock()
+	if ch, ok := c.Hold[method]; ok {
+		close(ch)
+		delete(c.Hold, method)
+	}
+	c.mu.Unlock()
+}
+
 func (c *Chain) ReleaseAll() {
 	c.mu.Lock()
 	for m, ch := range c.Hold {
